@@ -238,3 +238,66 @@ NOT_CLAIMED = {
            'incompatible with the validator side of the comparison (see C14). The binding side (which names bind, which are '
            'required) is the assumed inspect model of C04, so the statement would relate two assumed external semantics.',
 }
+
+# ---- notes refreshed at the end of the build (they describe what is and is not covered NOW)
+CLAIMS['C01']['note'] = (
+    'assumed: json.loads/json.dumps contracts; the quantified wire-form clause of BatchResponse.to_json (its comprehension '
+    'contract - source and element, generic element - is proved); the lemma that the strict BatchResponse built from an '
+    'accepted batch finds no duplicate ids; duplicate-id semantics of _add_ids (bounded stand-in, exhaustive up to 4 ids); '
+    'element-wise well-formedness of the ARRAY members follows from the comprehension contracts + the (trusted) filter-map '
+    'semantics of comprehensions, not from a quantified postcondition; A-user for methods, middlewares (return UNSET or a '
+    'well-formed Response) and error handlers')
+CLAIMS['C03']['note'] = (
+    'Method.bind is the abstract MethodBind contract here (binds uninterpreted; C04 proves the concrete binding); explicit '
+    'postconditions of dispatch(): non-JSON text and loader ValueError -> one -32700, id null, nothing executed; JSON that is '
+    'neither a request object nor an array, and an array that is empty or has an invalid element -> one -32600, id null, '
+    'nothing executed; duplicate ids / oversize batches -> -32600 are covered through the assumed _add_ids semantics and the '
+    'dispatch body, not as separate clauses; user callables follow A-user')
+CLAIMS['C05']['note'] = (
+    'json.dumps/json.loads are an assumed contract (norm: scalars fixed, tuples->lists, member-wise, length and emptiness '
+    'preserving, idempotent); batch to_json: comprehension contracts proved (every element of the array is the wire form of '
+    'the element at the same position), the quantified array clause assumed; the batch round-trip lemma is not stated')
+CLAIMS['C06']['note'] = (
+    'assumes the Python value model (DESIGN 3.1), default message classes, user error subclasses not overriding '
+    '__init__/from_json; batch: from_json / append / extend / __init__ are under contract (atomicity, only '
+    'DeserializationError / IdentityError); that IdentityError is raised EXACTLY for duplicate ids is assumed (dup_in '
+    'uninterpreted) + bounded stand-in')
+CLAIMS['C07']['note'] = (
+    'under contract: raw _send (both clients), call(), notify(), Request/BatchRequest.is_notification, to_json wire forms; '
+    'the decorator stack retried(traced(raw)) is an assumed contract whose SHAPE is proved (lemma_send_stack_order); NOT '
+    'under contract: proxy / batch notations (Batch.__call__, __getitem__), id generators, the client-dispatcher '
+    'composition lemma; json.dumps/loads, the transport and the validator are assumed / abstract')
+CLAIMS['C08']['note'] = (
+    'batch matching (BaseBatch._relate) is covered by a BOUNDED stand-in only (20 800 small batches, exhaustive over its '
+    'grid; its loop invariant needs a quantifier alternation) - labelled bounded, not proved; `is` on scalars is modelled '
+    'as value equality, so an `!=` -> `is not` rewrite on ids is not distinguished')
+CLAIMS['C09']['note'] = (
+    'Backoff.__call__ is an assumed contract (fresh iterator over delays_of(backoff), numbers): the three generators use '
+    'yield, float exponentiation and a Fibonacci recurrence - outside the VC generator; their closed forms are compared '
+    'natively by the bounded stand-in backoff_closed_forms (2 790 cases); time.sleep/asyncio.sleep only record; '
+    '`except tuple(classes)` is the uninterpreted exc_listed')
+CLAIMS['C10']['note'] = (
+    'the quantifier over SCHEDULES is not enumerated by this technique: the claim is reduced to (i) the per-element handler '
+    'contract, (ii) the PROVED frame of the handler chain (C13: nothing pre-existing is written), (iii) the assumed contract '
+    'of asyncio.gather (results in argument order); await-erasure (single-task reasoning); the non-interference meta-theorem '
+    'connecting these to every interleaving is a paper argument')
+CLAIMS['C11']['note'] = (
+    'await-erasure (single-task reasoning); paired under ONE contract: _handle_rpc_method, _handle_rpc_request, '
+    '_handle_request, dispatch, __init__ (middleware chain), traced wrapper, retried wrapper, retry/retry_async wrapped, raw '
+    '_send, call, notify; Batch / AsyncBatch are not paired under contract')
+CLAIMS['C12']['text'] = (
+    'Error handlers: loop invariant over it.chain(generic handlers, handlers for the RAISED error code): every iteration '
+    'appends exactly one ghost event - the call of the k-th handler with (request, context, error returned by the previous '
+    'handler) - and the error sent is the last returned one; handlers never run on success (trace equality). Middlewares: the '
+    'constructors of both dispatchers are proved to build the request handler as partial(m[0], handler=partial(m[1], ... '
+    'partial(m[n-1], handler=self._handle_request))) - first declared outermost, each exactly once (inductive chain predicate, '
+    'loop invariant over reversed(middlewares)); dispatch() hands every single request and every batch element to exactly that '
+    'handler (call-site protocol obligation + comprehension contract). One contract per sync/async pair.')
+CLAIMS['C12']['note'] = (
+    'that a user middleware calls its `handler` argument exactly once is user behaviour (A-user), so "runs once" is proved for '
+    'the library part: one entry into the chain per request; handlers are assumed not to raise and to return well-formed '
+    'protocol errors; is_chain is an uninterpreted predicate with trusted definitional instances (define(...))')
+CLAIMS['C19']['note'] = (
+    'tracers are assumed not to raise and _tracers to be a list (A-user); composition with the retry loop (every attempt '
+    'traced): the stack shape retried(traced(raw _send)) is proved by lemma_send_stack_order (decorator expressions of the '
+    'real class bodies), the per-layer behaviour by the wrapper contracts; their composition is stated, not machine-checked')
